@@ -48,6 +48,10 @@ Clauses(e) ==
         \* the exposed model of a live object follows its current lag / orders (= the functional estimate)
         { <<"no-exception", ~e.raised>>,
           <<"exposed-model-is-the-estimate-for-current-attributes", e.raised \/ Small(e.dev, Tol)>> }
+    ELSE IF e.ev = "coexist" THEN
+        \* objects built first and evaluated afterwards expose their own model and their own PSD
+        { <<"no-exception", ~e.raised>>,
+          <<"exposed-model-is-the-objects-own", e.raised \/ (Small(e.par_dev, Tol) /\ Small(e.psd_dev, Tol))>> }
     ELSE { <<"unknown-event", FALSE>> }
 
 VARIABLES l, fails
